@@ -75,11 +75,7 @@ def run(ctx):
     cat = res.printed()
     if len(cat) < 5000:
         raise Machinery("KernelCalls generator: %d call classes" % len(cat))
-    if ctx.tier == "quick":
-        # every kernel and every boundary shape, one third of the value/option combinations (deterministic)
-        keep = [d for i, d in enumerate(cat) if d["modelled"] or d["old_unsafe"] or (hash(json.dumps(d["c"], sort_keys=True)) + ctx.seed) % 3 == 0]
-    else:
-        keep = cat
+    keep = cat
     calls = [d["c"] for d in keep]
     outcomes, reports, restarts = run_catalogue(ctx, calls, asan_dir)
     counts = {}
@@ -105,11 +101,10 @@ def run(ctx):
     ctx.part("catalogue", call_classes_total=len(cat), executed=len(calls), states=res.distinct, outcomes=counts,
              sanitizer_restarts=restarts, modelled_boundary_classes=sum(1 for d in keep if d["old_unsafe"]))
     ctx.part("per_kernel", **per_kernel)
-    ctx.exhaustive = ctx.tier == "thorough"
+    ctx.exhaustive = True
     ctx.rule = ("TLC enumerates the call catalogue of KernelCalls.tla completely (%d call classes: every entry point reaching a kernel x lengths "
                 "0,1,2,3,5 x value classes finite/NaN/inf/negative/huge x options at and beyond their range) and checks the ghost index model "
-                "(NoOOB) of the repaired aggregate/flathomogen/islin/eckhardt/crps/voronoi kernels; every class (quick: every modelled boundary class "
-                "and a third of the others) is executed through the public API in an ASan+UBSan build of the working tree; outcomes ok / Python "
+                "(NoOOB) of the repaired aggregate/flathomogen/islin/eckhardt/crps/voronoi kernels; every class is executed through the public API in an ASan+UBSan build of the working tree; outcomes ok / Python "
                 "exception are accepted, a sanitizer report with a hydrodiy frame, a signal or a hang is a violation. non-trivial = class answered "
                 "by an exception or report." % len(cat))
     ctx.assumptions += ["a specification cannot observe memory: the sanitizer build is the observation channel the property prescribes",
